@@ -234,6 +234,28 @@ def run_api_shapes(_):
                         what = "reactants/products" if (got and (got[0]["reactants"], got[0]["products"]) != (exp[0]["reactants"], exp[0]["products"])) or len(got) != len(exp) else "fields"
                         over = "beyond-format-capacity" if nr > 3 or np_ > 5 else "within-capacity"
                         viols.append((f"C18:api-shape:{over}:{what}", f"API reaction {r} -> {p} comes back as {got[0]['reactants'] if got else None} -> {got[0]['products'] if got else None} (and {len(got)} reactions)", case))
+        # source tags a user-defined format or the API may assign (any length, inner blank, empty): written and read
+        # back unchanged, one at a time and all in one file
+        tags = ["osu_01_2009", "x", "UMIST-RATE12", "12345678", "123456789", "my db", "", "a_very_long_database_tag_2024"]
+        for group in [[t_] for t_ in tags] + [tags]:
+            n += 1
+            case = {"api_shape": ["source-tags", group]}
+            with quiet():
+                rs = []
+                for i_, t_ in enumerate(group):
+                    r_ = Reaction(["C", "O"], ["CO"], 10.0, 300.0, 1e-10 * (i_ + 1), 0.0, 0.0, ReactionType.GAS_TWOBODY, i_)
+                    r_.source = t_
+                    rs.append(r_)
+                f = tmp / "tags.naunet"
+                try:
+                    Network(rs).write(f, "naunet")
+                    back = Network(filelist=str(f), fileformats="naunet")
+                    got = [r_.source for r_ in back.reaction_list]
+                except Exception as e:
+                    viols.append((f"C18:source-tag-api:raises", f"source tags {group}: write/read raises {e!r}", case))
+                    continue
+            if got != group:
+                viols.append((f"C18:source-tag-api", f"source tags {group} come back as {got}", case))
         # networks that hold no reaction (a new network, a network after its reactions were removed or filtered out by
         # the allowed list): the written file reads back to no reaction and the same species
         for tag in ("new", "all-removed", "all-filtered", "only-required"):
